@@ -1,5 +1,5 @@
 (* Model/Chain.v — pycoin/blockchain/ChainFinder.py and pycoin/blockchain/BlockChain.py, function by
-   function.  No proofs here.
+   function (state of /repo after the fixes cdbeb46, 30b0f94, 0658a14).  No proofs here.
 
    Representation.  Hashes are N (the code only hashes and compares them).  Python dicts are association
    lists read through [dget] (first binding), sets are duplicate-free lists.  Two things in the code depend
